@@ -2,10 +2,7 @@ From Coq Require Import NArith ZArith Lia ZifyBool ZifyN.
 Ltac Zify.zify_post_hook ::= Z.div_mod_to_equations.
 Open Scope N_scope.
 
-(* layout constants (regenerated from the crate in the real development) *)
-Definition HEADER_SIZE := 1024.
-Definition DATA_REGION_OFFSET := 17408.
-Definition MAX_SEGMENTS := 16384.
+Require Export Consts.
 
 Definition mro (i : N) : N := let c := i / 8 in let p := i mod 8 in c * (c + 1) * 4 + p * (c + 1).
 Definition rowlen (m : N) : N := m / 8 + 1.
